@@ -15,6 +15,7 @@ pub fn run(args: &Args, _r: &mut Report) {
             cohort: [Some("c1".into()), None, Some("".into())],
             updatecheck: Some(UcSpec::ok(Some("2.0.0.0"))),
         }],
+        wrap: 0,
     };
     script.checks.push(CheckScript {
         attempts: vec![RespSpec::Transport, RespSpec::Reply(ReplySpec::ok(BodySpec::Doc(doc)))],
